@@ -65,8 +65,18 @@ func GetRootFieldsAccessed(op Operation) (rootFieldsAccessed []string) {
 					}
 				}
 			case *opFunction:
-				for _, param := range ot.Params.Paths() {
-					for _, val := range GetRootFieldsAccessed(param.Value) {
+				for _, param := range ot.Params {
+					var paramOp Operation
+					switch pt := param.(type) {
+					case *FP_Path:
+						paramOp = pt.Value
+					case *FP_LogicalOperation:
+						paramOp = pt.Value
+					default:
+						continue
+					}
+
+					for _, val := range GetRootFieldsAccessed(paramOp) {
 						accessed[val] = struct{}{}
 					}
 				}
